@@ -239,8 +239,10 @@ Fixpoint check_steps (prop : N) (i : N) (st : state) (prev : obs) (l : list tste
         (* pure accept/reject divergence on which the contract holds: not this property's alarm;
            continue from the implementation's observed state *)
         check_steps prop (i + 1) (state_of_obs after (ver_old st)) after r
-      else if negb (corr prop st' after) then [(i, 50)]
-      else if (prop =? 2) && negb (list_eqb msg_eqb ms ms_m) then [(i, 51)]
+      else if negb (corr prop st' after)
+      then (i, 50) :: check_steps prop (i + 1) (state_of_obs after (ver_old st)) after r   (* go on from the observed state *)
+      else if (prop =? 2) && negb (list_eqb msg_eqb ms ms_m)
+      then (i, 51) :: check_steps prop (i + 1) (state_of_obs after (ver_old st)) after r
       else check_steps prop (i + 1) st' after r
   end.
 
@@ -274,7 +276,7 @@ Fixpoint check_traces (prop : N) (i : N) (ts : list trace) : list (N * N) :=
   match ts with
   | [] => []
   | t :: r =>
-      match check_trace prop t with
+      match prefer_clause (check_trace prop t) with
       | [] => check_traces prop (i + 1) r
       | (s, c) :: _ => (i, s * 1000 + c) :: check_traces prop (i + 1) r
       end
